@@ -13,6 +13,7 @@
   rows (`-` for a majority-voting team: no evaluator uses it).
 -/
 import Vita.C08.Model
+import Vita.C08.Bridge
 open Vita.C05 Vita.C08
 
 @[extern "fma"] opaque cFma : Float → Float → Float → Float
@@ -98,9 +99,17 @@ def answerCls (kind comp : String) (classes xslot m ntrain nq : Nat) (rest : Lis
       let trainAns := ans.take ntrain
       let acc : Float := accuracyClass ((trainAns.map (·.1)).zip labels)
       let cexs : List (CEx Float) := (trainAns.zip labels).map (fun (t, l) => ⟨t.1, t.2, l, 0⟩)
+      -- the fitness: C05's END-TO-END evaluator model (Classify.lean) fed with the member outputs – by
+      -- `dyn/gauss/bin_evaluator_scores_lambdify` it scores exactly the answers computed above; both
+      -- routes are evaluated and must agree
+      let texs : List (Cls.TEx Float) := (List.range ntrain).map (fun i => ⟨column tbl i, labels.getD i 0, 0⟩)
+      let fitE := if kind == "dyn" then (@Cls.dynSlotEvaluator Float (numC floatFns) classes xslot m texs).1
+        else if kind == "gau" then (@Cls.gaussianEvaluator Float (numC floatFns) classes m texs).1
+        else (@Cls.binaryEvaluator Float (numC floatFns) m texs).1
+      let fitM := if kind == "gau" then (gaussEval (NumN.ofNat (classes - 1)) cexs).1 else (countEval cexs).1
       let fit := if comp == "mv" then "-"
-        else if kind == "gau" then showFit (gaussEval (NumN.ofNat (classes - 1)) cexs).1
-        else showFit (countEval cexs).1
+        else if showFit fitE == showFit fitM then showFit fitM
+        else "evaluator-model-mismatch " ++ showFit fitE ++ " " ++ showFit fitM
       "ans" ++ String.join (ans.map (fun t => " " ++ toString t.1 ++ " " ++ showF t.2)) ++
         " acc " ++ showF acc ++ " fit " ++ fit
     | none => "bad-op"
